@@ -178,6 +178,21 @@ def run_mixed_case(seed, i, tier, K=None, compare_schedules=False):
     cr = CaseResult()
     if len(srcs) < 2:
         return cr
+    # stored forms: journals and event logs in a container are unpacked into temporary files by their workers, side by side;
+    # an event log without events beside them finishes before the others have begun
+    if rng.random() < 0.5:
+        srcs.append(("n.evtx", fixtures.load("noevents"), []))
+        if rng.random() < 0.5:
+            srcs.append(("n2.evtx", fixtures.load("noevents"), []))
+        packed = []
+        for (path, data, ms) in srcs:
+            if (path.endswith(".evtx") or path.endswith(".journal")) and len(data) < 3_000_000 and rng.random() < 0.9:
+                form = rng.choice(("gz", "gz", "xz", "lz4"))
+                data, _ = world.random_container(rng, form, data, 1600000000, path)
+                path += world.SUFFIX[form]
+            packed.append((path, data, ms))
+        srcs = packed
+        cr.probes["mixed_case_with_stored_journals_and_event_logs"] += 1
     rng.shuffle(srcs)
     heads = [0] * len(srcs)
     expected = bytearray()
